@@ -45,7 +45,7 @@ Proof.
     | H : context [match mbeh ?m with _ => _ end] |- _ => destruct (mbeh m)
     end;
     cbn [at_wait run_pre holder_pre spawn_pre b2n spawn_w andb negb] in *;
-    cbn [st upd_st upd_qs upd_intable upd_innames add_handled add_ok add_err add_term set_killed set_initfail finalise] in *;
+    cbn [st upd_st upd_qs upd_intable upd_innames add_handled add_ok add_err add_fb add_term set_killed set_initfail finalise] in *;
     rewrite ?Est in *;
     repeat split; intros; try discriminate; try congruence;
     try (specialize (W1 eq_refl)); try (specialize (W2 eq_refl)); try (specialize (W3 eq_refl)); try (specialize (W4 eq_refl));
@@ -156,7 +156,7 @@ Proof.
       | |- context [match ?l with [] => _ | _ :: _ => _ end] => destruct l
       | |- context [match mbeh ?m with _ => _ end] => let E := fresh "Em" in destruct (mbeh m) eqn:E
       end;
-      cbn [pc_ok st killed treason handled upd_st upd_qs upd_intable upd_innames add_handled add_ok add_err add_term
+      cbn [pc_ok st killed treason handled upd_st upd_qs upd_intable upd_innames add_handled add_ok add_err add_fb add_term
            set_killed set_initfail finalise] in *;
       (split; [|split; [|split]]);
       try (intros np E; inversion E; subst; cbn [pc_ok]; exact I);
@@ -178,9 +178,9 @@ Qed.
 
 Definition FullInv (c : cfg) : Prop := Inv c /\ WaitInv c /\ ReasonInv c.
 
-Theorem FullInv_reachable sched named selfs initok others :
+Theorem FullInv_reachable sched named lim fb selfs initok others :
   Forall (fun p => init_pc p = true) others ->
-  FullInv (run sched (init_cfg named selfs initok others)).
+  FullInv (run sched (init_cfg named lim fb selfs initok others)).
 Proof.
   intros Hall. apply (run_invariant FullInv).
   - intros c i c' (H1 & H2 & H3) Hs. split; [eapply step_inv; eauto|split; [eapply step_wait; eauto|eapply step_reason; eauto]].
@@ -194,8 +194,8 @@ Proof.
 Qed.
 
 (* C05: the reason given to the terminate callback and to links/monitors reflects a cause *)
-Theorem reason_reflects_cause sched named selfs initok others r :
+Theorem reason_reflects_cause sched named lim fb selfs initok others r :
   Forall (fun p => init_pc p = true) others ->
-  let c := run sched (init_cfg named selfs initok others) in
+  let c := run sched (init_cfg named lim fb selfs initok others) in
   treason (sh c) = Some r -> cause (sh c) r.
-Proof. intros Hall c Hr. destruct (FullInv_reachable sched named selfs initok others Hall) as (_ & _ & (_ & _ & H)). apply H. exact Hr. Qed.
+Proof. intros Hall c Hr. destruct (FullInv_reachable sched named lim fb selfs initok others Hall) as (_ & _ & (_ & _ & H)). apply H. exact Hr. Qed.
